@@ -177,16 +177,32 @@ OpenCatalog ==
 RFiles == <<"dat", "smp", "cov">>
 StartWrite == /\ Workload = "results" /\ rstep = 0 /\ readback.k = "none" /\ ~crashed /\ rstep' = 1
               /\ UNCHANGED <<rfile, readback, crashed>> /\ UNCHANGED tvars /\ UNCHANGED cvars
-(* rstep 2k-1: open (trunc) file k; 2k: write file k *)
-OpenR == /\ rstep \in {1, 3, 5} /\ rfile' = [rfile EXCEPT ![RFiles[(rstep + 1) \div 2]] = "empty"] /\ rstep' = rstep + 1
+(* "ResultTripleNotAtomic" (code as found): the three files are replaced in place one after
+   the other - rstep 2k-1: open (trunc) file k; 2k: write file k *)
+OpenR == /\ Dev("ResultTripleNotAtomic")
+         /\ rstep \in {1, 3, 5} /\ rfile' = [rfile EXCEPT ![RFiles[(rstep + 1) \div 2]] = "empty"] /\ rstep' = rstep + 1
          /\ UNCHANGED <<readback, crashed>> /\ UNCHANGED tvars /\ UNCHANGED cvars
-WriteR == /\ rstep \in {2, 4, 6} /\ rfile' = [rfile EXCEPT ![RFiles[rstep \div 2]] = "g2"] /\ rstep' = (rstep + 1) % 7
+WriteR == /\ Dev("ResultTripleNotAtomic")
+          /\ rstep \in {2, 4, 6} /\ rfile' = [rfile EXCEPT ![RFiles[rstep \div 2]] = "g2"] /\ rstep' = (rstep + 1) % 7
           /\ UNCHANGED <<readback, crashed>> /\ UNCHANGED tvars /\ UNCHANGED cvars
+(* the design (and the repaired to_files): the .dat file completes the set.
+     1 unlink .dat | 2 open .smp | 3 write .smp | 4 open .cov | 5 write .cov |
+     6 write .dat.tmp (invisible) | 7 rename .dat.tmp -> .dat *)
+CommitR ==
+    /\ ~Dev("ResultTripleNotAtomic") /\ rstep \in 1..7
+    /\ rfile' = CASE rstep = 1 -> [rfile EXCEPT !["dat"] = "absent"]
+                  [] rstep = 2 -> [rfile EXCEPT !["smp"] = "empty"]
+                  [] rstep = 3 -> [rfile EXCEPT !["smp"] = "g2"]
+                  [] rstep = 4 -> [rfile EXCEPT !["cov"] = "empty"]
+                  [] rstep = 5 -> [rfile EXCEPT !["cov"] = "g2"]
+                  [] rstep = 6 -> rfile
+                  [] rstep = 7 -> [rfile EXCEPT !["dat"] = "g2"]
+    /\ rstep' = (rstep + 1) % 8
+    /\ UNCHANGED <<readback, crashed>> /\ UNCHANGED tvars /\ UNCHANGED cvars
+(* from_files reads .dat and .smp; a missing or empty file is an error *)
 ReadResults ==
     /\ Workload = "results" /\ rstep = 0 /\ readback.k = "none"
     /\ readback' = IF rfile["dat"] \in {"absent", "empty"} \/ rfile["smp"] \in {"absent", "empty"} THEN RB("error", "absent", "absent")
-                   ELSE IF rfile["dat"] # rfile["smp"] /\ ~Dev("ResultTripleNotAtomic")
-                          THEN RB("error", "absent", "absent")      \* ideal: generations are stamped and compared
                    ELSE RB("ok", rfile["dat"], rfile["smp"])
     /\ UNCHANGED <<rfile, rstep, crashed>> /\ UNCHANGED tvars /\ UNCHANGED cvars
 
@@ -202,7 +218,7 @@ SomeUse == \E b \in Binnings : Use(b)
 TreeStep == UnlinkMarker \/ OpenTrees \/ WriteTreesPart \/ WriteTreesRest \/ OpenMarker \/ WriteMarkerByte \/ WriteMarkerEdges
 CatStep == RmIds \/ (\E p \in Patches : RmPatchData(p) \/ RmPatchDir(p) \/ MkPatch(p) \/ OpenData(p) \/ AppendData(p))
            \/ RmRoot \/ MkRoot \/ OpenIds \/ RenameIds \/ WriteIds
-ResStep == OpenR \/ WriteR
+ResStep == OpenR \/ WriteR \/ CommitR
 
 Next == SomeStartBuild \/ TreeStep \/ SomeUse \/ StartCreate \/ CatStep \/ OpenCatalog
         \/ StartWrite \/ ResStep \/ ReadResults \/ Crash
